@@ -54,7 +54,47 @@ let handle cmd args : string option =
      | None -> Some ("0 0 " ^ hex_of_str buf)
      | Some ((b, len), r) -> Some (string_of_int (int_of_nat len) ^ " " ^
                                    string_of_int (List.length d - List.length r) ^ " " ^ hex_of_str b))
+  | "rows", _ ->
+    (* handled in handle_full: the expected value depends on the first half of the implementation's answer *)
+    None
   | "recs", [h; maxlen] -> Some (dump (parse_records (zi (int_of_string maxlen)) (str_of_hex h)))
   | _ -> None
 
-let () = serve handle
+(* rows: "<rows of the structure>| <rows after mmCIF write+read>"; the model regroups the first list *)
+let parse_rows (t : string) =
+  if String.trim t = "-" then [] else
+  List.filter_map (fun item ->
+    match words item with
+    | [num; cn; rn; seq; ic; an; alt] ->
+      Some (((zi (int_of_string num), str_of_hex cn), ((str_of_hex rn, zi (int_of_string seq)), zi (int_of_string ic))),
+            (str_of_hex an, zi (int_of_string alt)))
+    | _ -> None) (String.split_on_char ';' t)
+let print_rows rows =
+  if rows = [] then "-" else
+  String.concat "" (List.map (fun (((num, cn), ((rn, seq), ic)), (an, alt)) ->
+    Printf.sprintf "%d %s %s %d %d %s %d ; " (iz num) (hex_of_str cn) (hex_of_str rn) (iz seq) (iz ic) (hex_of_str an) (iz alt)) rows)
+let () =
+  (* wrap serve: for `rows` the prediction is built from the first half of the observed line *)
+  let n = ref 0 and bad = ref 0 and skipped = ref 0 in
+  (try
+    while true do
+      let line = input_line stdin in
+      match split_tab line with
+      | [cmd; args; got] ->
+        incr n;
+        let exp =
+          if cmd = "rows" then
+            (match String.index_opt got '|' with
+             | Some i -> let first = String.sub got 0 i in
+               (try Some (first ^ "| " ^ print_rows (to_rows (of_rows (parse_rows first)))) with e -> Some ("MODEL-ERROR " ^ Printexc.to_string e))
+             | None -> None)
+          else (try handle cmd args with e -> Some ("MODEL-ERROR " ^ Printexc.to_string e)) in
+        (match exp with
+         | None -> incr skipped
+         | Some exp -> if exp <> got then begin
+             incr bad;
+             if !bad <= 200 then Printf.printf "MISMATCH\t%s\t%s\timpl=%s\tmodel=%s\n" cmd args got exp end)
+      | _ -> ()
+    done
+  with End_of_file -> ());
+  Printf.printf "SUMMARY\t%d\t%d\t%d\n" !n !bad !skipped
